@@ -22,12 +22,30 @@ PROPS = {
             fam("c08.negates", 2500, 40000),
             fam("c08.removebad", 2500, 40000),
             fam("c08.engine", 1500, 20000),
+            fam("c08.rewrites", 1000, 20000),
         ],
-        "defects": ["D7"],
+        "defects": ["D7", "D14"],
         "rule": "c08.negates: (x$badfilter, x), near-twins differing in exactly one modifier value (incl. $denyallow, $dnstype, $dnsrewrite, "
                 "$client/$ctag order), reversed and random pairs through VerifNegatesBadfilter; c08.removebad: base lists + 1-4 twin pairs at "
                 "random positions + near-twins through VerifRemoveBadfilterRules (survivor indexes, in order); c08.engine: verdict(L+twins) == "
                 "verdict(L) through NetworkEngine.Match and DNSEngine.MatchRequest, rules split over two lists at a random point; "
                 "distinct by hash of the op input; non-trivial when the answer is not F/()",
+    },
+    "C09": {
+        "families": [
+            fam("c09.rewrites", 3000, 40000),
+            # n = maximal length enumerated EXHAUSTIVELY over the 24-shape alphabet (quick: all 346 201 sequences of
+            # length 0..4; thorough: all 8 308 825 of length 0..5 plus all 2 985 984 of length 6 over a 12-shape sub-alphabet)
+            fam("c09.batch", 4, 5, seeds=1),
+        ],
+        "defects": ["D8"],
+        "coverage_extra": {"exhaustive": True},
+        "rule": "c09.rewrites: sampled sequences (length 0-14) of $dnsrewrite rules over 24 values x important x exception (plus rules "
+                "without $dnsrewrite), half of them through a real DNSEngine (texts parsed, engine decides the order of NetworkRules), "
+                "answer = indexes of DNSRewrites() in order; c09.batch: exhaustive enumeration of all sequences up to the given length over "
+                "the 24-shape alphabet (A/CNAME/RCODE/MX x important x exception, TXT/HTTPS/SRV rule+exception, the two empty-valued "
+                "exceptions), 1000 sequences per line; distinct by hash of the op input",
+        "explanation": "Length 6 over all 24 shapes (191 M sequences) does not fit the time budget of the line protocol; it is enumerated over "
+                       "a 12-shape sub-alphabet. The theorem c09 covers every length.",
     },
 }
